@@ -71,6 +71,39 @@ CHECKS["C08"] = dict(
     ref="DESIGN.md 5/C08", category="fault_enumeration",
     technique="TLA+ crash/recovery model (TLC) + exhaustive fault enumeration on the real filesystem backend validated by a TLC monitor")
 
+_RUNNER = ("Runner.tla (explicit-stack interpreter of ProgSem programs: store look-ups, batch pre-check, frames, "
+           "propagate_dependencies on value and exception paths, context inheritance/override) is model-checked against the "
+           "reference semantics ProgSem.tla through the lock-step monitor RunnerMon (MonOk, ProvenanceExact, StackDiscipline); "
+           "random well-founded programs are emitted as real memento modules, random root histories (calls with modifiers and "
+           "context, call_batch/map_over_range, forget, forget_all) run on filesystem / filesystem+cache / memory backends and "
+           "TLC validates every event (outcome, bodies run, full memento projection) against RunnerMon (TraceRunner); ")
+CHECKS["C02"] = dict(engine="runner", ref="DESIGN.md 5/C02",
+    text=_RUNNER + "clauses: outcome = un-memoized outcome, bodies run exactly for unmemoized calls, store holds exactly the expected "
+    "calls, recorded result type. Value domain: every term of a typed result universe (scalars, dates, containers, numpy, pandas, "
+    "partitions, exception classes) x 4 backend/cache configurations x 3 modifiers through Call,Call,Memento,Forget,Call,Call validated "
+    "against TransparentMon (result-type classification defined in TLA+).",
+    technique="TLA+ runner mechanism spec refined against denotational semantics (TLC) + TLC trace validation of generated programs and typed value universe")
+CHECKS["C10"] = dict(engine="runner", ref="DESIGN.md 5/C10",
+    text=_RUNNER + "clauses: invocations = direct calls in order with context and argument, resources = handles obtained, dependency set = "
+    "transitive closure incl. self, for every memento present after every operation (so for every memoized-before subset reached).",
+    technique="TLA+ runner mechanism spec with ProvenanceExact invariant (TLC) + TLC trace validation of memento projections of generated programs")
+CHECKS["C15"] = dict(engine="runner", ref="DESIGN.md 5/C15",
+    text=_RUNNER + "clauses: batch result list (or first raised exception) = element-wise denotations in order, bodies run once per "
+    "unmemoized distinct element, store afterwards = store after individual calls.",
+    technique="TLA+ runner mechanism spec incl. bulk pre-check (TLC) + TLC trace validation of batch operations on generated programs")
+CHECKS["C16"] = dict(engine="runner", ref="DESIGN.md 5/C16",
+    text=_RUNNER + "clauses: keys include the context id (results stored/served separately), recorded context of every nested invocation "
+    "= inherited or overriding context, bodies run exactly for unmemoized (function, argument, context) keys; prevented calls: nested "
+    "memento calls raise RuntimeError and do not execute (DenPrevent).",
+    technique="TLA+ runner mechanism spec with context propagation (TLC) + TLC trace validation of context-carrying call trees")
+CHECKS["C17"] = dict(engine="partition", ref="DESIGN.md 5/C17",
+    text=("Partition.tla defines Stored(chain, i) as the overlay of own entries over the parent's stored entries and TLC checks the laws "
+          "(keys are the union, own wins, parent-only remain, value comes from the nearest level) over all chains of 3 keys and length <= 3; "
+          "merge chains of real partition-returning memento functions (in-memory and on-disk staging) are built through four plans "
+          "(parents computed in the same run / cached / read back from disk / mixed) on three backends; every returned object (first "
+          "call, second call, fresh backend) is probed key by key and validated by TLC against OverlayMon."),
+    technique="TLA+ reference definition of overlay with laws checked by TLC + TLC trace validation of probed partition objects")
+
 NOT_YET = {
 }
 
@@ -109,6 +142,10 @@ def main():
             "add_only": True,
         },
         "engines": [
+            {"name": "runner", "path": "harness/check_runner.py", "serves_properties": ["C02", "C10", "C15", "C16"],
+             "kind_free_text": "spec/Runner.tla + ProgSem.tla + RunnerMon/TransparentMon, program generator harness/progs.py, runner_worker.py, values_worker.py"},
+            {"name": "partition", "path": "harness/check_part.py", "serves_properties": ["C17"],
+             "kind_free_text": "spec/Partition.tla + OverlayMon, part_worker.py"},
             {"name": "faults", "path": "harness/check_faults.py", "serves_properties": ["C08"],
              "kind_free_text": "spec/FsWrite.tla + CrashSafeMon, audit-hook/open-proxy fault injector harness/fault_worker.py"},
             {"name": "threads", "path": "harness/check_threads.py", "serves_properties": ["C09"],
